@@ -558,9 +558,12 @@ def units(prop, tier):
     if prop == 'C11':
         # successive HPKE messages never share a nonce: _new_cipher (nonce == base_nonce xor I2OSP(seq, 12), seq' = seq + 1, refusal at
         # the limit with nothing changed), seal, the sender's induction step, and injectivity of the nonce in seq
+        # the receiver side belongs here too: a context that re-opens under a nonce it has already used (its sequence number moved back
+        # by a refused message) shares a nonce between two messages just as a sender would (seeded change C11-hpke-unseal-short-rewind)
         return [pyvc_unit(prop, 'hpke.new_cipher', registry, [HC + '._new_cipher'], weight=3),
                 pyvc_unit(prop, 'hpke.seal', registry, [HC + '.seal']),
-                pyvc_unit(prop, 'hpke.sender_step', registry, [S + 'sender_step']),
+                pyvc_unit(prop, 'hpke.unseal', registry, [HC + '.unseal'], weight=3),
+                pyvc_unit(prop, 'hpke.history_steps', registry, [S + 'receiver_step', S + 'sender_step']),
                 nonce_injective_unit(prop)]
     return []
 
